@@ -100,9 +100,16 @@ func registryTrace(args []string) {
 			for j := 0; j < ops; j++ {
 				key := 2 + r.Intn(3)
 
-				if r.Intn(2) == 0 && (kind == 0 || !registered[key]) {
+				if r.Intn(2) == 0 {
 					registered[key] = true
-					plans[i] = append(plans[i], callT{"add", key, 10*(i+1) + j})
+
+					// the registry refuses a second factory under one version: "register" (test and set)
+					op := "add"
+					if kind == 1 {
+						op = "register"
+					}
+
+					plans[i] = append(plans[i], callT{op, key, 10*(i+1) + j})
 				} else {
 					plans[i] = append(plans[i], callT{"lookup", key, 0})
 				}
@@ -135,8 +142,8 @@ func registryTrace(args []string) {
 						}
 					} else {
 						ver := fmt.Sprintf("%d.0", c.key)
-						if c.op == "add" {
-							reg.Register(ver, &idFactory{c.val})
+						if c.op == "register" {
+							res = tryRegister(reg, ver, &idFactory{c.val})
 						} else if v, err := reg.CreateClientVersion(ver, &common.ProtocolConfig{}); err == nil {
 							res = atoi(v.Version())
 						}
@@ -165,6 +172,112 @@ func registryTrace(args []string) {
 			_ = enc.Encode(e)
 		}
 	}
+}
+
+// tryRegister: 1 when the registration was accepted, 0 when it was refused (the registry panics).
+func tryRegister(reg *clientregistry.Registry, ver string, f *idFactory) (res int) {
+	defer func() {
+		if recover() != nil {
+			res = 0
+		}
+	}()
+
+	reg.Register(ver, f)
+
+	return 1
+}
+
+// registerRace: G goroutines released together register ONE version with different factories, round after
+// round; performed one at a time exactly one of them is accepted and a later lookup finds that one's factory.
+// The rounds in which that is not so (and a few others) are written out as histories for TLC to judge.
+func registerRace(args []string) {
+	fl := parseFlags(args)
+	rounds, g := fl.int("rounds", 2000), fl.int("g", 16)
+
+	f, err := os.Create(fl.str("o", "register_race.ndjson"))
+	if err != nil {
+		fatalf("%v", err)
+	}
+
+	defer f.Close()
+
+	w := bufio.NewWriter(f)
+	defer w.Flush()
+
+	enc := json.NewEncoder(w)
+	odd, written := 0, 0
+
+	for round := 0; round < rounds; round++ {
+		reg := clientregistry.New()
+		events := make([][]regEvent, g)
+
+		var (
+			clock int64
+			wg    sync.WaitGroup
+			ready sync.WaitGroup
+		)
+
+		start := make(chan struct{})
+		ready.Add(g)
+
+		for i := 0; i < g; i++ {
+			wg.Add(1)
+
+			go func(i int) {
+				defer wg.Done()
+				ready.Done()
+				<-start
+
+				val := 100 + i
+				events[i] = append(events[i], regEvent{Seq: atomic.AddInt64(&clock, 1), Event: "Invoke", G: i + 1, Op: "register", Key: 9, Val: val})
+				res := tryRegister(reg, "9.0", &idFactory{val})
+				events[i] = append(events[i], regEvent{Seq: atomic.AddInt64(&clock, 1), Event: "Return", G: i + 1, Op: "register", Key: 9, Val: val, Res: res})
+			}(i)
+		}
+
+		ready.Wait()
+		close(start)
+		wg.Wait()
+
+		var all []regEvent
+
+		accepted := 0
+
+		for _, e := range events {
+			all = append(all, e...)
+
+			if e[1].Res == 1 {
+				accepted++
+			}
+		}
+
+		sort.Slice(all, func(a, b int) bool { return all[a].Seq < all[b].Seq })
+
+		// afterwards a lookup finds the factory that was accepted
+		found := 0
+		if v, err := reg.CreateClientVersion("9.0", &common.ProtocolConfig{}); err == nil {
+			found = atoi(v.Version())
+		}
+
+		all = append(all, regEvent{Seq: clock + 1, Event: "Invoke", G: g + 1, Op: "lookup", Key: 9},
+			regEvent{Seq: clock + 2, Event: "Return", G: g + 1, Op: "lookup", Key: 9, Res: found})
+
+		if accepted != 1 {
+			odd++
+		}
+
+		if (accepted != 1 && odd <= 20) || round < 25 {
+			_ = enc.Encode(map[string]interface{}{"event": "Reset", "g": 0, "op": "", "key": 0, "val": 0, "res": 0})
+
+			for _, e := range all {
+				_ = enc.Encode(e)
+			}
+
+			written++
+		}
+	}
+
+	writeJSON(os.Stdout, map[string]interface{}{"rounds": rounds, "goroutines": g, "rounds_not_exactly_one_accepted": odd, "histories_written": written})
 }
 
 // ---- stateless components shared by goroutines -----------------------------------------------
